@@ -88,7 +88,7 @@ def run(ctx):
         keyf = hdr[:nk]
         valf = hdr[nk:]
         hdr = [hdr[i] for i in order]
-        kp = rng.choice([gen.INT_KEYS + [None], gen.SCALAR_KEYS, gen.SMALL_KEYS])
+        kp = rng.choice([gen.INT_KEYS + [None], gen.SCALAR_KEYS, gen.SMALL_KEYS, [[1, 'a'], (1, 'a'), [2], (2,), (1, 'b')]])      # last: lists next to tuples of equal items (one key)
         pools = {j: (kp if hdr[j] in keyf else [0, 1, 2, 5, -3]) for j in range(len(hdr))}
         T = gen.table(rng, hdr, pools=pools, maxn=8, ragged=0.08)
         key = keyf[0] if nk == 1 else (tuple(keyf) if rng.random() < 0.5 else list(keyf))
@@ -241,7 +241,8 @@ def run(ctx):
         def gthunk(T=T, key=key, gv=gv):
             # data rows (the header names positional keys by position)
             return list(etl.groupcountdistinctvalues(T, key, gv))[1:]
-        if all(len(r) == len(hdr) for r in T[1:]):
+        # (not over the list/tuple twins: `distinct` tells [2] from (2,) by raw ==, the sort does not — outside what C09 fixes)
+        if all(len(r) == len(hdr) for r in T[1:]) and not any(isinstance(c, list) for r in T[1:] for c in r):
             jobs.append(('groupcountdistinctvalues', 'gcdv %s %s %s %s' % (kt, util.enc_key(gv), '-', ttok), gthunk, goracle, dict(base, value=repr(gv)), nt))
     # conservation laws on valuecounts / valuecounter (Counter oracle)
     lines = [j[1] for j in jobs if j[1] is not None]
@@ -377,6 +378,26 @@ def run(ctx):
         if got != ([('value',), (n,)], n, n, n):
             ctx.spec_fail('aggregate|sized-container', 'row counts over a table container with its own __len__ do not add up to the number of data rows',
                           {'table': repr(T), 'len(container)': len(R), '(aggregate(None, len), nrows, valuecounter total, group counts total)': repr(got), 'nrows': n})
+
+    # ---- a view built after the table was edited in place describes the edited table, whatever views of it existed before
+    for ci in range(60 if ctx.thorough() else 20):
+        T = [['k', 'v']] + [[rng.choice([1, 2, 3]), rng.choice([0, 1, 5])] for _ in range(rng.choice([1, 2, 4]))]
+        ops = [('aggregate', lambda t: etl.aggregate(t, 'k', len)), ('fold', lambda t: etl.fold(t, 'k', lambda a, b: a + b, 'v')),
+               ('rowreduce', lambda t: etl.rowreduce(t, 'k', lambda k, g: [k, len(list(g))], header=['k', 'n'])), ('groupselectfirst', lambda t: etl.groupselectfirst(t, 'k')),
+               ('mergeduplicates', lambda t: etl.mergeduplicates(t, 'k')), ('sort', lambda t: etl.sort(t, 'k')), ('distinct', lambda t: etl.distinct(t, 'k'))]
+        n1, f1 = rng.choice(ops)
+        n2, f2 = rng.choice(ops)
+        old_view = f1(T)
+        list(old_view)
+        T.append([rng.choice([1, 4]), 9])
+        got = util.run_show(lambda: f2(T))
+        want = util.run_show(lambda: f2([list(r) for r in T]))
+        ctx.case(('view-after-edit', n1, n2, repr(T)))
+        ctx.count('view-after-edit')
+        if got != want:
+            ctx.spec_fail('%s|stale-table' % n2, '%s built over a table that was edited after an earlier view (%s) had been read does not see the edit' % (n2, n1),
+                          {'table now': repr(T), 'earlier view': n1, 'new view': n2, 'real': got, 'want': want})
+        del old_view
 
     # ---- merge(): `missing` fills the fields a table does not have, and is not a value that can conflict
     for ci in range(80 if ctx.thorough() else 24):
